@@ -10,6 +10,7 @@ pub mod pool;
 pub mod dest;
 pub mod socks;
 pub mod http;
+pub mod auth;
 
 pub fn run(args: &Args, log: &Log) -> Result<(), String> {
     match args.driver.as_str() {
@@ -24,6 +25,7 @@ pub fn run(args: &Args, log: &Log) -> Result<(), String> {
         "dest" => dest::run(args, log),
         "socks" => socks::run(args, log),
         "http" => http::run(args, log),
+        "auth" => auth::run(args, log),
         d => Err(format!("unknown driver {d}")),
     }
 }
